@@ -21,7 +21,9 @@ def cases(draw, mechs=MECHS):
     sizes = [draw(st.integers(2, 4)) for _ in range(k)]
     n = draw(st.one_of(st.integers(0, 30), st.integers(30, 300), st.integers(30, 300), st.integers(300, 3000), st.integers(300, 3000)))
     case = {'mech': mech, 'domain': {'attrs': names, 'shape': sizes}, 'n': n, 'data_seed': draw(st.integers(0, 2**31 - 1)),
-            'skew': draw(st.sampled_from([0.0, 1.0, 2.5])), 'eps': draw(logf(0.05, 10.0)), 'delta': draw(st.sampled_from([1e-9, 1e-6, 1e-3])),
+            'skew': draw(st.sampled_from([0.0, 1.0, 2.5])),
+            'eps': draw(logf(0.05, 10.0)) if draw(st.integers(0, 7)) else draw(logf(1e-6, 0.05)),
+            'delta': draw(st.sampled_from([1e-9, 1e-6, 1e-3, 1e-12])),
             'np_seed': draw(st.integers(0, 2**31 - 1)), 'nb_seed': draw(st.integers(0, 2**31 - 1)),
             'neighbour': draw(st.sampled_from(['add', 'remove']))}
     if mech == 'aim':
@@ -32,6 +34,9 @@ def cases(draw, mechs=MECHS):
             wl.append([sorted(cl, key=names.index), draw(st.sampled_from([1.0, 1.0, 0.5, 2.0]))])
         case['workload'] = wl
         case['prng'] = draw(st.sampled_from(['none', 'np.random']))
+        # model-size cap as a multiple of the size of the model over the one-way marginals (None = default 80 MB):
+        # a binding cap makes the candidate set grow from round to round
+        case['size_cap'] = draw(st.sampled_from([None, None, 1.2, 2.0, 4.0]))
     elif mech == 'mwem':
         case['rounds'] = draw(st.integers(1, 5))
         case['noise'] = draw(st.sampled_from(['gaussian', 'laplace']))
@@ -110,6 +115,9 @@ def invoke(case, data, extra=None):
         kw = {}
         if case.get('prng') == 'np.random':
             kw['prng'] = np.random
+        if case.get('size_cap') is not None:
+            shape = case['domain']['shape']
+            kw['max_model_size'] = case['size_cap'] * sum(shape) * 8 / 2.0 ** 20
         mech = mod.AIM(case['eps'], case['delta'], rounds=case['rounds'], **kw)
         return mech.run(data, [(tuple(cl), w) for cl, w in case['workload']])
     if m == 'mwem':
